@@ -1,27 +1,32 @@
 #!/usr/bin/env python3
-"""Prints the markdown table of DESIGN.md section 9 from seeded/*/*/meta.json and seeded/RESULTS-*.txt."""
+"""Prints the markdown table of DESIGN.md section 9 from seeded/*/*/meta.json, seeded/RESULTS-firstpass.txt (the checks as
+they were when the change was first tried) and seeded/RESULTS-final.txt (the checks as committed)."""
 import json, glob, os, re
-res = {}
-for f in sorted(glob.glob('/verif/seeded/RESULTS-round*.txt')):
+def load(f):
+    res = {}
+    if not os.path.exists(f): return res
     for l in open(f):
         m = re.match(r'SEEDED (\S+) RESULT tests=(\d+) demo_clean=(\d+) demo_mut=(\d+) check_exit=(\d+)\s*(.*)', l.strip())
-        if m:
-            res.setdefault(m.group(1), []).append(m.groups()[1:])
-print("| change | what it breaks / what it needs | confirmed (suite passes, demo fails with / passes without) | caught by (quick tier) |")
-print("|---|---|---|---|")
+        if m: res[m.group(1)] = m.groups()[1:]
+    return res
+first, final = load('/verif/seeded/RESULTS-firstpass.txt'), load('/verif/seeded/RESULTS-final.txt')
+print("| change | what it breaks - what it needs to manifest | confirmed | first try | committed checks (quick tier) |")
+print("|---|---|---|---|---|")
+n = caught = 0
 for meta in sorted(glob.glob('/verif/seeded/C*/*/meta.json')):
     d = os.path.dirname(meta); key = '/'.join(d.split('/')[-2:])
     m = json.load(open(meta))
-    what = (m.get('what_it_breaks','') or '')[:220].replace('|','\\|').replace('\n',' ')
-    need = (m.get('needs_to_manifest','') or '')[:200].replace('|','\\|').replace('\n',' ')
-    rs = res.get(key, [])
-    if not rs:
-        print(f"| {key} | {what} - needs: {need} | not run | - |"); continue
-    last = rs[-1]
-    ok = "yes" if (last[0]=="0" and last[1]=="0" and last[2]!="0") else f"tests={last[0]} clean={last[1]} changed={last[2]}"
-    caught = []
-    for r in rs:
-        sig = re.sub(r'\[.*?\]','',r[4]).strip().split(' ')[0] if r[4] else ''
-        note = re.search(r'\[(.*?)\]', r[4]); note = f" ({note.group(1)})" if note else ""
-        caught.append(("`%s`" % sig if r[3]=="1" else "MISSED") + note)
-    print(f"| {key} | {what} - needs: {need} | {ok} | {'; then '.join(caught)} |")
+    what = re.sub(r'\s+', ' ', (m.get('what_it_breaks','') or ''))[:200].replace('|','\\|')
+    need = re.sub(r'\s+', ' ', (m.get('needs_to_manifest','') or ''))[:170].replace('|','\\|')
+    ind = '' if m.get('independent', True) else ' *(written with knowledge of the generators)*'
+    f1, f2 = first.get(key), final.get(key)
+    def show(r):
+        if not r: return '-'
+        if r[3] == '1': return 'caught: `%s`' % (r[4].split(' ')[0] if r[4] else '?')
+        if r[3] == '2': return 'exit 2 (not steerable)'
+        return 'MISSED'
+    conf = '-'
+    if f2: conf = 'yes' if (f2[0]=='0' and f2[1]=='0' and f2[2]!='0') else 'tests=%s clean=%s changed=%s' % f2[:3]
+    n += 1; caught += 1 if (f2 and f2[3]=='1') else 0
+    print(f"| {key}{ind} | {what} - {need} | {conf} | {show(f1)} | {show(f2)} |")
+print(f"\n{caught} of {n} seeded changes are caught by the committed quick tier.")
